@@ -32,3 +32,11 @@ Proof. exact twins_conflated_refuted. Qed.
 Theorem C06_inventory : inventory_ok_b = true.
 Proof. exact inventory_ok. Qed.
 Print Assumptions C06_group_equality_invariant.
+
+(* the atom sorting key (constants re-extracted from conformation_container.py): lexicographic while residue numbers are at most 9999 apart;
+   beyond that, atoms of adjacent chains interleave (only the order of floating-point summation depends on it: compared with a tolerance) *)
+Theorem C06_sort_key_lexicographic : forall ch1 n1 c1 ch2 n2 c2, (0 <= c1 < 1000)%Z -> (0 <= c2 < 1000)%Z -> (Z.abs (n1 - n2) <= 9999)%Z ->
+  ((sort_key ch1 n1 c1 < sort_key ch2 n2 c2)%Z <-> (ch1 < ch2 \/ (ch1 = ch2 /\ (n1 < n2 \/ (n1 = n2 /\ c1 < c2))))%Z).
+Proof. exact sort_key_lexicographic. Qed.
+Theorem C06_sort_key_overlap_refuted : (sort_key 66 (-999) 0 < sort_key 65 9999 0)%Z.
+Proof. exact sort_key_overlap_refuted. Qed.
